@@ -116,6 +116,16 @@ type shippedObs struct {
 	Panic   map[string]string `json:"panic"`
 }
 
+// byteNoise inserts bytes that are not text: NUL, 0xFF, truncated and overlong UTF-8, a surrogate, U+10FFFF
+func byteNoise(rng *rand.Rand, s string) string {
+	chunks := []string{"\x00", "\xff", "\xc3", "\xf0\x9f", "\xed\xa0\x80", "\xf4\x8f\xbf\xbf", "\xf4\x90\x80\x80", "\xef\xbf\xbd", "\x80"}
+	at := 0
+	if len(s) > 0 {
+		at = rng.Intn(len(s) + 1)
+	}
+	return s[:at] + chunks[rng.Intn(len(chunks))] + s[at:]
+}
+
 func mutateBytes(rng *rand.Rand, s string) string {
 	rs := []rune(s)
 	if len(rs) == 0 {
@@ -201,6 +211,10 @@ func shippedMain(args []string) error {
 			for k := 0; k < *muts; k++ {
 				inputs[name] = append(inputs[name], mutateBytes(rng, s))
 				kinds[name] = append(kinds[name], "mutant")
+			}
+			for k := 0; k < (*muts+1)/2; k++ {
+				inputs[name] = append(inputs[name], byteNoise(rng, s))
+				kinds[name] = append(kinds[name], "bytes")
 			}
 		}
 		for _, o := range opts {
